@@ -250,6 +250,108 @@ func (e *Engine) evalPhis(st *State, fr *Frame, b *ssa.BasicBlock, pred *ssa.Bas
 			}
 		}
 	}
+	if li := e.loopsOf(fr.fn)[b]; li != nil {
+		e.bindIndexAliases(fr, li)
+	}
+}
+
+// bindIndexAliases makes loop contracts survive the harmless conversion between `for i := 0; i < n; i++` and
+// `for i := range s`: at the head of a counting `for` loop whose counter starts at 0 and advances by one, `rangeindex`
+// (the index of the element visited last) is counter-1; at the head of a range loop, the name of its key variable is
+// rangeindex+1 (the index about to be visited). The aliases are bound at the header only and mean exactly what the
+// other loop form's own variable means there.
+func (e *Engine) bindIndexAliases(fr *Frame, li *loopInfo) {
+	one := func(v ssa.Value) bool {
+		c, ok := v.(*ssa.Const)
+		return ok && c.Value != nil && c.Value.String() == "1"
+	}
+	zero := func(v ssa.Value) bool {
+		c, ok := v.(*ssa.Const)
+		return ok && c.Value != nil && c.Value.String() == "0"
+	}
+	bind := func(name string, t Term) {
+		v := mkInt(t)
+		fr.names[name] = NameBinding{V: v}
+		fr.names[fmt.Sprintf("%s_%d", name, li.ord)] = NameBinding{V: v}
+	}
+	switch loopKind(li) {
+	case "range-index":
+		for _, in := range li.header.Instrs {
+			phi, ok := in.(*ssa.Phi)
+			if !ok {
+				break
+			}
+			if phi.Comment != "rangeindex" {
+				continue
+			}
+			pv, ok := fr.regs[phi]
+			if !ok || len(pv.L) != 1 || pv.L[0].Sort != SInt {
+				return
+			}
+			// the incremented index in the header, and the source name the body gives it
+			for _, in2 := range li.header.Instrs {
+				bo, ok := in2.(*ssa.BinOp)
+				if !ok || bo.Op != token.ADD || bo.X != ssa.Value(phi) || !one(bo.Y) {
+					continue
+				}
+				names := map[string]bool{}
+				for blk := range li.blocks {
+					for _, in3 := range blk.Instrs {
+						if d, ok := in3.(*ssa.DebugRef); ok && !d.IsAddr && d.X == ssa.Value(bo) && d.Object() != nil {
+							names[d.Object().Name()] = true
+						}
+					}
+				}
+				if len(names) == 1 {
+					for n := range names {
+						if n != "_" && n != "rangeindex" {
+							bind(n, Add(pv.L[0], IntLit(1)))
+						}
+					}
+				}
+			}
+		}
+	case "for":
+		var cand *ssa.Phi
+		n := 0
+		for _, in := range li.header.Instrs {
+			phi, ok := in.(*ssa.Phi)
+			if !ok {
+				break
+			}
+			if phi.Comment == "rangeindex" {
+				return
+			}
+			okInit, okStep := false, false
+			for i, ed := range phi.Edges {
+				if i >= len(li.header.Preds) {
+					break
+				}
+				if li.blocks[li.header.Preds[i]] {
+					if bo, ok := ed.(*ssa.BinOp); ok && bo.Op == token.ADD && bo.X == ssa.Value(phi) && one(bo.Y) {
+						okStep = true
+					} else {
+						okStep = false
+						break
+					}
+				} else if zero(ed) {
+					okInit = true
+				} else {
+					okInit = false
+					break
+				}
+			}
+			if okInit && okStep {
+				cand = phi
+				n++
+			}
+		}
+		if n == 1 {
+			if pv, ok := fr.regs[cand]; ok && len(pv.L) == 1 && pv.L[0].Sort == SInt {
+				bind("rangeindex", Sub(pv.L[0], IntLit(1)))
+			}
+		}
+	}
 }
 
 func (e *Engine) loopEntry(st *State, fr *Frame, li *loopInfo, pred *ssa.BasicBlock) {
@@ -304,6 +406,7 @@ func (e *Engine) loopEntry(st *State, fr *Frame, li *loopInfo, pred *ssa.BasicBl
 			fr.names[fmt.Sprintf("%s_%d", phi.Comment, li.ord)] = NameBinding{V: nv}
 		}
 	}
+	e.bindIndexAliases(fr, li)
 	e.havocLoopWrites(st, fr, li)
 	e.assumeInvariant(st, fr, li, ls)
 	if len(ls.Decr) > 0 {
